@@ -1,6 +1,6 @@
 /-
 Line protocol of the C16 model (canonical text of values, instances and schema descriptors; see
-harness/core/src/bin/sv-c16.rs), the model machine and the observable-level monitor.
+harness/form/src/bin/sv-c16.rs), the model machine and the observable-level monitor.
 
   value  := x | i<n> | j<n> | u<n> | v<n> | bt | bf | t<hex> | {@<hex>=<value>,..|<item>,..}   item := value | value:value
   inst   := i<n> | bt | bf | t<hex> | u | n | s<inst> | [<inst>,..] | (<inst>,..) | #<k>(<inst>,..)
